@@ -54,6 +54,42 @@ def gen_local(rng):
     return lines, expect
 
 
+def gen_immediate(rng):
+    """events written between two frames (not in Update) around a loss of connection: implementation only (the model's frames
+    emit in Update); a client that has just lost its connection acts as singleplayer again, so what it sends towards the server
+    from then on must be observed locally exactly once and never reach the network"""
+    lines = ["cfg plugins=full", "frame 16"]
+    expect = {}
+    seq = 0
+    status = "disconnected"
+    for _ in range(rng.randrange(2, 6)):
+        if status == "disconnected":
+            if rng.random() < 0.6:
+                lines.append("client connecting")
+                lines.append("frame %d" % rng.choice([0, 16]))
+            lines.append("client connected")
+            status = "connected"
+            lines.append("frame %d" % rng.choice([0, 16]))
+            for _ in range(rng.randrange(0, 3)):
+                seq += 1
+                ty = rng.choice(["ce", "ct"])
+                lines.append("emit %s %d" % (ty, seq))
+                expect[seq] = dict(kind=ty, full=True, status="connected", running=False)
+                lines.append("frame %d" % rng.choice([0, 5, 16]))
+        else:
+            lines.append("client disconnected")
+            status = "disconnected"
+            for _ in range(rng.randrange(1, 3)):
+                seq += 1
+                ty = rng.choice(["ce", "ct"])
+                lines.append("emitnow %s %d" % (ty, seq))
+                expect[seq] = dict(kind=ty, full=True, status="disconnected", running=False)
+            lines.append("frame %d" % rng.choice([0, 5, 16]))
+            lines.append("frame 16")
+    lines += ["frame 16", "frame 16"]
+    return lines, expect
+
+
 def oracle(lines, impl, expect):
     counts = {}
     status, full = "disconnected", True
@@ -147,6 +183,18 @@ def run(tier, seed, replay):
             oracle_fail.append(dict(problem=pr[0], script=lines))
         if len(ex) >= 5:
             nontriv.add("\n".join(lines))
+    # implementation-only: emissions between frames around a loss of connection
+    imm = [gen_immediate(rng) for _ in range(60 if tier == "quick" else 2000)]
+    imm_lines = [l for sc, _ in imm for l in sc]
+    imm_blocks = locallib.run_impl(imm_lines)
+    pos = 0
+    for sc, ex in imm:
+        blk = [[x for x in b if not x.startswith("fixed=")] for b in imm_blocks[pos:pos + len(sc)]]
+        pos += len(sc)
+        pr = oracle(sc, blk, ex)
+        if pr:
+            oracle_fail.append(dict(problem=pr[0], script=sc))
+    rep.cov["immediate_emission_scripts"] = len(imm)
     rep.cov["evaluations"] = len(scripts)
     rep.cov["traces_validated_against_impl"] = len(scripts)
     rep.cov["distinct_nontrivial"] = len(nontriv)
